@@ -33,43 +33,80 @@ def bisectLoopPy (unpack : Int → Except Exc Bytes) (sha : Bytes) :
 
 def bisectFuel (start «end» : Int) : Nat := («end» - start + 2).toNat
 
-/-- Python `bisect_find_sha(start, end, sha, unpack_name)`. -/
+/-- Python `bisect_find_sha(start, end, sha, unpack_name)` (repaired: the three argument checks). -/
 def bisectPy (unpack : Int → Except Exc Bytes) (sha : Bytes) (start «end» : Int) :
     Except Exc (Option Int) :=
-  if ¬ (start ≤ «end») then .error .assertion                   -- assert start <= end
+  if start < 0 then .error .value                               -- "start must not be negative"
+  else if start > «end» then .error .value                      -- "start > end"
+  else if «end» > Gen.pyMaxsize then .error .overflow           -- end > sys.maxsize
+  else bisectLoopPy unpack sha (bisectFuel start «end») start «end»
+
+/-- Before the repair: `assert start <= end` only. -/
+def bisectPyOld (unpack : Int → Except Exc Bytes) (sha : Bytes) (start «end» : Int) :
+    Except Exc (Option Int) :=
+  if ¬ (start ≤ «end») then .error .assertion
   else bisectLoopPy unpack sha (bisectFuel start «end») start «end»
 
 def inSigned (bits : Nat) (x : Int) : Bool := decide (-(2 ^ (bits - 1) : Int) ≤ x) && decide (x < (2 ^ (bits - 1) : Int))
 
-/-- Rust loop on `i32` in a debug build: `start + end`, `i + 1`, `i - 1` panic on overflow;
-`/` truncates toward zero. -/
+/-- Rust loop on `isize` (repaired): `i = start + (end - start) / 2` (debug build: every `+`/`-` panics
+on overflow; `/` truncates toward zero), `i.checked_add(1)` — `None` leaves the loop —, `end = i - 1`. -/
 def bisectLoopRs (unpack : Int → Except Exc Bytes) (sha : Bytes) :
     Nat → Int → Int → Except Exc (Option Int)
   | 0, _, _ => .error .fuel
   | fuel + 1, start, «end» =>
     if start > «end» then .ok none else
-    let s := start + «end»
-    if ¬ inSigned Gen.rsBisectBits s then .error .panic else
-    let i := Int.tdiv s 2
+    if ¬ inSigned Gen.rsBisectBits («end» - start) then .error .panic else
+    let i := start + Int.tdiv («end» - start) 2
+    if ¬ inSigned Gen.rsBisectBits i then .error .panic else
     match unpack i with
     | .error e => .error e
     | .ok fileSha =>
       if fileSha.length ∉ Gen.rsIsShaLens then .error .type      -- "unpack_name returned non-sha object"
       else
         match cmpBytes fileSha sha with
-        | .lt => if ¬ inSigned Gen.rsBisectBits (i + 1) then .error .panic
+        | .lt => if ¬ inSigned Gen.rsBisectBits (i + 1) then .ok none     -- checked_add: None => break
                  else bisectLoopRs unpack sha fuel (i + 1) «end»
         | .gt => if ¬ inSigned Gen.rsBisectBits (i - 1) then .error .panic
                  else bisectLoopRs unpack sha fuel start (i - 1)
         | .eq => .ok (some i)
 
-/-- Rust `bisect_find_sha(start, end, sha, unpack_name)`: argument extraction to `i32` first. -/
+/-- Rust `bisect_find_sha(start, end, sha, unpack_name)`: argument extraction to `isize` first. -/
 def bisectRs (unpack : Int → Except Exc Bytes) (sha : Bytes) (start «end» : Int) :
     Except Exc (Option Int) :=
   if ¬ inSigned Gen.rsBisectBits start ∨ ¬ inSigned Gen.rsBisectBits «end» then .error .overflow
   else if sha.length ∉ Gen.rsBisectShaLens then .error .value
+  else if start < 0 then .error .value
   else if start > «end» then .error .value
   else bisectLoopRs unpack sha (bisectFuel start «end») start «end»
+
+/-- Before the repair: `i32` bounds, `i = (start + end) / 2`, unchecked `i + 1`. -/
+def bisectLoopRsOld (unpack : Int → Except Exc Bytes) (sha : Bytes) :
+    Nat → Int → Int → Except Exc (Option Int)
+  | 0, _, _ => .error .fuel
+  | fuel + 1, start, «end» =>
+    if start > «end» then .ok none else
+    let s := start + «end»
+    if ¬ inSigned 32 s then .error .panic else
+    let i := Int.tdiv s 2
+    match unpack i with
+    | .error e => .error e
+    | .ok fileSha =>
+      if fileSha.length ∉ [20, 32] then .error .type
+      else
+        match cmpBytes fileSha sha with
+        | .lt => if ¬ inSigned 32 (i + 1) then .error .panic
+                 else bisectLoopRsOld unpack sha fuel (i + 1) «end»
+        | .gt => if ¬ inSigned 32 (i - 1) then .error .panic
+                 else bisectLoopRsOld unpack sha fuel start (i - 1)
+        | .eq => .ok (some i)
+
+def bisectRsOld (unpack : Int → Except Exc Bytes) (sha : Bytes) (start «end» : Int) :
+    Except Exc (Option Int) :=
+  if ¬ inSigned 32 start ∨ ¬ inSigned 32 «end» then .error .overflow
+  else if sha.length ∉ [20, 32] then .error .value
+  else if start > «end» then .error .value
+  else bisectLoopRsOld unpack sha (bisectFuel start «end») start «end»
 
 /-! ## the three callbacks the harness uses -/
 
